@@ -54,8 +54,9 @@ theorem foreign_ok_correct (mark : T) (np : NP) (rel : Path) (outa : T) (tid : N
 STATUS of `trace_correct`: proved below (section "the full theorems") for every pair of trees meeting the decidable side
 condition `wfN mark edited` (defined in `Pfst/Reconcile.lean`, evaluated by the driver on every case as `wf`): every
 in-tree origin names a node of the marked tree of the same kind and field shapes, tree ids of other trees are `≠ 0`,
-primitives that are `==` to the marked value are identical (`primOK`, finding F1), list elements are not lists, and NO
-`Dict` (mode 2 list of `pair` pseudo nodes: `recurse_slice_dict` is not covered by the induction, see `trace_correct`).
+primitives that are `==` to the marked value are identical (`primOK`, finding F1), list elements are not lists, and the
+`pair` pseudo nodes of a `Dict` (mode 2) have one kind, a key that is a node or `None`, and an origin consistent with key and
+value (`wfPs` / `pairCons`: what `recurse_slice_dict` reads off `values[i].f` and `keys[i].f`).
 The earlier partial results are kept: the case of a node whose fields are all scalars (`trace_correct_partial`), the
 wholesale cases (`foreign_ok_correct`, `fallback_overrides`), the frame law (`frame`), and the negation of the
 unconditional statement (`trace_correct_false`).
@@ -219,10 +220,10 @@ theorem intree_never_fails (mark : T) (np : NP) (rel : Path) (outa : T) (l : Opt
 /-- TARGET 1, `recurse_children` over an arbitrary field list (fields `pre.length …` of a node whose earlier fields are
 already done): scalar fields, node fields, slice fields, one-by-one list fields. -/
 theorem children_correct (mark : T) (fs : List T) (np : NP) (oks pre : List T) (o : Origin) (k : Nat)
-    (wf : wfFs mark fs = true) (hs : fieldSlots mark np pre.length oks fs)
+    (wf : wfFs mark fs = true) (hnn : np ≠ .none) (hs : fieldSlots mark np pre.length oks fs)
     (h : (recFields mark np pre.length oks fs).fail = false) :
     applyOps (recFields mark np pre.length oks fs).ops (.node o k (pre ++ oks)) = .node o k (pre ++ eraseL fs) :=
-  recFields_ok mark fs np pre.length oks pre o k wf rfl hs h
+  recFields_ok mark fs np pre.length oks pre o k wf hnn rfl hs h
 
 /-- TARGET 1, `recurse_slice` on a list field of ANY length under an in-tree parent (`q` its path in the marked tree, `fi`
 the field): first-element condition, contiguous-run detection (runs copied from the marked tree, verified runs of another
@@ -237,7 +238,8 @@ theorem slice_correct (mark : T) (q : Path) (fi : Nat) (s : Option Nat) (mitems 
   have hsl := elemSlots_mark mark q fi items 0 wf
   rw [hk, List.drop_zero] at hsl
   have hsi : SI (.fst 0 q) fi 0 {} (eraseL mitems) items (eraseL mitems) 0 := by simp [SI, runFree]
-  have := recSlice_ok mark items (.fst 0 q) fi s 0 {} (eraseL mitems) [] (eraseL mitems) 0 s 1 wf rfl hsl hsi h
+  have := recSlice_ok mark items (.fst 0 q) fi s false 0 0 {} (eraseL mitems) [] (eraseL mitems) 0 s 1 (by simpa using wf)
+    (by simp) rfl hsl hsi (by simp) h
   simpa using this
 
 /-- `recurse_slice` under a parent that was put as a pure AST (or is an unverified node of another tree): the output list
@@ -248,14 +250,33 @@ theorem slice_correct_ast (mark : T) (np : NP) (hb : np.base = none) (fi : Nat) 
     applyOps (recSliceGo mark np fi ns false 0 {} (eraseL items) items).ops (.many s 1 (eraseL items))
       = .many s 1 (eraseL items) := by
   have hsi : SI np fi 0 {} (eraseL items) items (eraseL items) 0 := by simp [SI, runFree]
-  have := recSlice_ok mark items np fi ns 0 {} (eraseL items) [] (eraseL items) 0 s 1 wf rfl
-    (elemSlots_self mark np fi hb items 0) hsi h
+  have hnn : np ≠ .none := by intro e; subst e; simp [NP.base] at hb
+  have := recSlice_ok mark items np fi ns false 0 0 {} (eraseL items) [] (eraseL items) 0 s 1 (by simpa using wf) hnn rfl
+    (elemSlots_self mark np fi false hb items 0) hsi (by simp) h
   simpa using this
 
-/-- TARGET 1, `trace_correct`: for every pair of trees meeting `wfN` (see the STATUS comment above; no `Dict`), if the
-exception does not leave `reconcile()`, replaying the operation trace on the structure of the marked copy yields exactly
-the structure of the edited tree.  For an in-tree root the `fail` hypothesis always holds (`intree_never_fails`).
-Still only evaluated per case by the driver (`res_ok`): trees containing a `Dict` (`recurse_slice_dict`, mode 2). -/
+/-- TARGET 1, `recurse_slice_dict` on a `Dict` of ANY length under an in-tree parent: the elements are `pair [key, value]`
+pseudo nodes of kind `pk` whose origin is consistent with key and value (`wfPs`), the marked `Dict` holds pairs of the same
+kind (`allShaped`).  Same loop as `recurse_slice`; per pair `recurse_node` on the key (or `put(None)` of a removed key) and on
+the value. -/
+theorem dict_correct (mark : T) (q : Path) (fi : Nat) (s : Option Nat) (pk : Nat) (mitems items : List T)
+    (hm : markAt mark (q ++ [fi]) = .many s 2 mitems) (hms : allShaped pk mitems = true) (wf : wfPs mark pk items = true)
+    (h : (recSliceGo mark (.fst 0 q) fi s true 0 {} (eraseL mitems) items).fail = false) :
+    applyOps (recSliceGo mark (.fst 0 q) fi s true 0 {} (eraseL mitems) items).ops (.many s 2 (eraseL mitems))
+      = .many s 2 (eraseL items) := by
+  have hk : (markAt mark (q ++ [fi])).kids = mitems := by rw [hm]; rfl
+  have hsl := elemSlotsD_mark mark q fi pk items 0 wf
+  rw [hk, List.drop_zero] at hsl
+  have hsi : SI (.fst 0 q) fi 0 {} (eraseL mitems) items (eraseL mitems) 0 := by simp [SI, runFree]
+  have := recSlice_ok mark items (.fst 0 q) fi s true pk 0 {} (eraseL mitems) [] (eraseL mitems) 0 s 2 (by simpa using wf)
+    (by simp) rfl hsl hsi (fun _ _ => allE_eraseL pk mitems (allShaped_mem pk mitems hms)) h
+  simpa using this
+
+/-- TARGET 1, `trace_correct`: for every pair of trees meeting `wfN` (see the STATUS comment above), if the exception does
+not leave `reconcile()`, replaying the operation trace on the structure of the marked copy yields exactly the structure of
+the edited tree.  For an in-tree root the `fail` hypothesis always holds (`intree_never_fails`).  The only trees outside
+`wfN` met in the correspondence runs are those of finding F1 (`primOK` false); for them the conclusion is evaluated per case
+by the driver (`res_ok`) and is false (`trace_correct_false`). -/
 theorem trace_correct (mark edited : T) (wf : wfN mark edited = true) (h : (reconcile mark edited).fail = false) :
     result mark edited = erase edited :=
   recNode_ok mark edited .none [] (erase mark) wf (Or.inr (by simp [slot, NP.base, markAt_nil])) h
@@ -276,8 +297,8 @@ theorem untouched_silent_full (mark n : T) (np : NP) (rel : Path) (outa : T) (hs
 
 /-- TARGET 2, `no_change`: the edited tree is the marked tree with every node in place and primitives `==` to the marked
 ones, outside the documented re-put quirks (`stillN`: list fields hold nodes only — no `Global` / `Nonlocal` names list, no
-`None` in `kw_defaults` —, no `Dict`): the trace is empty and nothing is raised, so the returned tree is the untouched copy
-of the marked tree. -/
+`None` in `kw_defaults`; `Dict` pairs in place with key and value in place or `None` over `None`): the trace is empty and
+nothing is raised, so the returned tree is the untouched copy of the marked tree. -/
 theorem no_change (mark edited : T) (h : stillN mark .none [] edited = true) : reconcile mark edited = ⟨[], false⟩ :=
   recNode_quiet mark edited .none [] (erase mark) h (by simp [slot, NP.base, markAt_nil])
 
@@ -285,7 +306,8 @@ theorem no_change_ops (mark edited : T) (h : stillN mark .none [] edited = true)
   simp [reconcileOps, no_change mark edited h]
 
 /-- TARGET 3, `untouched_kept`: `p` is a path (field index, then element index for list fields) from the root to a subtree
-that is unchanged (`stillN`), every node on the way is in place and no retry-at-parent fallback fires at it (`keptN`), and
+that is unchanged (`stillN`), every node on the way is in place, no retry-at-parent fallback fires at it and no list on the
+way is a `Dict` (`keptN`; a `Dict` may occur anywhere else, also inside the untouched subtree), and
 the edited tree meets the side conditions.  Then every operation of the trace is disjoint from that subtree: no `put` /
 `setPrim` at it, above it or inside it, no slice put whose replaced range contains the element on the path, no tail
 deletion from at or before it (`touches`, region of an operation = the path prefix it rewrites). -/
@@ -380,5 +402,36 @@ def eK2 : T := modl (.tree none)
   [assign (loc [] 0 (some 0)) (name .new 99) (name (loc [0, 0] 1) 11), st 2, st 1]
 example : wfN m3 eK2 = true ∧ keptN m3 [0, 0, 1] .none [] eK2 = true ∧ keptN m3 [0, 0] .none [] eK2 = false := by decide
 example : ∀ op ∈ reconcileOps m3 eK2, touches op [0, 0, 1] = false := untouched_kept m3 eK2 [0, 0, 1] (by decide) (by decide)
+
+
+/-! ### non-vacuity: `Dict` -/
+
+def pr (o : Origin) (k v : T) : T := .node o 9 [k, v]
+/-- pair `i` of the marked `Dict`, tagged in place -/
+def dpair (i : Nat) : T := pr (loc [] 0 (some i)) (name (loc [0, i] 0) (20 + 2 * i)) (name (loc [0, i] 1) (21 + 2 * i))
+def dict (o : Origin) (ps : List T) : T := .node o 7 [.many (some 3) 2 ps]
+/-- marked `{a: b, c: d, e: f}` -/
+def mD : T := dict (.tree none) [dpair 0, dpair 1, dpair 2]
+/-- `{e: f, NEW: NEW, **b}`: third pair first, a new pair, the value of the first pair under a removed key; `c: d` deleted -/
+def eD : T := dict (.tree none) [dpair 2, pr .new (name .new 50) (name .new 51), pr .new .nil (name (loc [0, 0] 1) 21)]
+example : wfN mD eD = true ∧ (reconcileOps mD eD).length = 7 := by decide
+example : result mD eD = erase eD := trace_correct mD eD (by decide) (by decide)
+/-- a run of two pairs moved as one slice, insertion past the end -/
+def eD2 : T := dict (.tree none) [dpair 1, dpair 2, dpair 0, pr .new (name .new 50) (name .new 51)]
+example : wfN mD eD2 = true ∧ (reconcileOps mD eD2).length = 11 := by decide +kernel
+example : result mD eD2 = erase eD2 := trace_correct mD eD2 (by decide +kernel) (by decide +kernel)
+/-- tail deletion -/
+def eD3 : T := dict (.tree none) [dpair 1]
+example : result mD eD3 = erase eD3 := trace_correct mD eD3 (by decide) (by decide)
+/-- the hypotheses of `dict_correct` -/
+example : applyOps (recSliceGo mD (.fst 0 []) 0 (some 3) true 0 {} (eraseL [dpair 0, dpair 1, dpair 2])
+      [dpair 2, pr .new (name .new 50) (name .new 51)]).ops (.many (some 3) 2 (eraseL [dpair 0, dpair 1, dpair 2]))
+      = .many (some 3) 2 (eraseL [dpair 2, pr .new (name .new 50) (name .new 51)]) :=
+  dict_correct mD [] 0 (some 3) 9 _ _ (by rfl) (by decide) (by decide) (by decide)
+/-- unchanged `Dict`: empty trace -/
+example : reconcile mD mD = ⟨[], false⟩ := no_change mD mD (by decide)
+/-- an inconsistent pair origin (pair tagged as element 2, value of element 0) is excluded by `wfN` -/
+example : wfN mD (dict (.tree none) [pr (loc [] 0 (some 2)) (name (loc [0, 2] 0) 24) (name (loc [0, 0] 1) 21)]) = false := by
+  decide
 
 end Pfst.C13
